@@ -1,5 +1,5 @@
 \* C11 quick: simulated weighted histories
-\* run by hand:  cd spec && tlc -workers 8 RunGenSketch.tla -config cfg/C11__RunGenSketch__simulated_weighted_histories.cfg -simulate num=375 -depth 11 -seed 2   (root module generated by the harness: see the .tla file next to this one; copy it to spec/ first)
+\* run by hand:  cd spec && tlc -workers 8 RunGenSketch.tla -config cfg/C11__RunGenSketch__simulated_weighted_histories.cfg -simulate num=375 -depth 11 -seed 1   (root module generated by the harness: see the .tla file next to this one; copy it to spec/ first)
 INIT GenInit
 NEXT GenNext
 CONSTANTS
